@@ -572,7 +572,7 @@ func engineRun(prop string, profile engineProfile, orc engineOracle, hangIsViola
 	return func(c *Ctx, idx int) CaseResult {
 		r := gen.Rand(c.Seed, prop, idx)
 		ec := profile(r, idx, c.Tier)
-		if idx%32 == 9 {
+		if idx%32 == 9 || (prop == "C06" && idx%12 == 9) {
 			cosmosify(ec)
 		}
 		if ec.RacingStarts > 1 && c.Emit != nil {
